@@ -11,5 +11,5 @@ for P in "$@"; do
   v=$(grep -c '^VIOLATION' /tmp/seedrun/$S.$P.out)
   echo "$S $P rc=$rc $(grep '^VIOLATION' /tmp/seedrun/$S.$P.out | head -2 | tr '\n' ' ')"
 done
-git -C /repo checkout -- .
+for i in 1 2 3 4 5; do git -C /repo checkout -- . && break; sleep 1; done
 ./bin/goextract /repo coq/gen
